@@ -59,6 +59,10 @@ CONFIGS = {
                alphabet=[I("hold", 1), I("cwait", 0), I("cwait", 1), I("setflag", 0, 1), I("setflag", 1, 1), I("csig"), I("tadd", 1, -5)]),
   "cond3s": dict(np=3, prio=[0, 0, 0], auto=[1, 1, 1], nres=1, poolcap=1, maxlen=3, maxtime=4,
                alphabet=[I("hold", 1), I("cwait", 2), I("cwait", 0), I("csub", 0), I("acq", 1), I("rel", 1), I("setflag", 0, 1)]),
+  # three waiters of equal priority arriving at different times and a fourth process that reshuffles the list and signals
+  "cond4o": dict(np=4, prio=[0, 0, 0, 0], auto=[1, 1, 1, 1], nres=1, poolcap=1, maxlen=3, maxtime=4,
+               alphabet=[I("hold", 1), I("cwait", 2), I("prio", 3, 1), I("prio", 1, 1), I("intr", 1, 9, 0), I("csig")],
+               roles=[["hold", "cwait"], ["hold", "cwait"], ["hold", "cwait"], ["hold", "prio", "intr", "csig"]], replay_quick=5000),
   "rec2p": dict(np=2, prio=[0, 0], auto=[1, 1], nres=1, poolcap=2, maxlen=4, maxtime=5,
                alphabet=[I("hold", 1), I("rec", 3, 1), I("rec", 3, 0), I("pacq", 1), I("pacq", 2), I("prel", 1), I("tadd", 1, -5)] + both("intr", -2, 5)),
   "rec2pq": dict(np=2, prio=[0, 0], auto=[1, 1], nres=1, poolcap=2, maxlen=4, maxtime=4,
@@ -93,7 +97,7 @@ FOR_PROPERTY = {
   "C13": (["cond2", "cond3s"], ["cond3"]),
   "C14": (["rec2q", "rec2pq"], ["rec2", "rec2p", "rec2b"]),
   "C05": (["mutex2"], ["mutex2p", "mutex3", "lost2"]),
-  "C06": (["order3"], ["order3e", "pool3"]),
+  "C06": (["order3", "cond4o"], ["order3e", "pool3"]),
   "C07": (["pool2"], ["pool3"]),
   "C08": (["lost2"], ["lost3", "pool2", "mutex2p"]),
   "C09": (["end2"], ["end3", "restart2", "wait2r"]),
@@ -111,10 +115,11 @@ def write_config(name, cfg, export=True, export_inv="ExportProg"):
         f.write("c_Prio0 == <<%s>>\n" % ", ".join(map(str, cfg["prio"])))
         f.write("c_Auto == <<%s>>\n" % ", ".join(map(str, cfg["auto"])))
         f.write("c_Alphabet == {%s}\n" % ", ".join(tla_tuple(t) for t in cfg["alphabet"]))
+        f.write("c_Roles == <<%s>>\n" % ", ".join("{%s}" % ", ".join('"%s"' % o for o in r) for r in cfg.get("roles", [])))
         f.write("c_UEvs == <<%s>>\n====\n" % ", ".join("<<%d, %d, %s>>" % (u[0], u[1], tla_tuple(u[2])) for u in cfg.get("uevs", [])))
     with open(os.path.join(vlib.SPEC, mod + ".cfg"), "w") as f:
         f.write("SPECIFICATION Spec\nCONSTANTS\n  NP = %d\n  Prio0 <- c_Prio0\n  Auto <- c_Auto\n  NRes = %d\n  PoolCap = %d\n"
-                "  BufCap = %d\n  OqCap = %d\n  PqCap = %d\n  UEvs <- c_UEvs\n  Alphabet <- c_Alphabet\n  MaxLen = %d\n  MaxTime = %d\nINVARIANTS NoViolation QuiescentOK %s\nCONSTRAINT Constr\nVIEW %s\nCHECK_DEADLOCK FALSE\n"
+                "  BufCap = %d\n  OqCap = %d\n  PqCap = %d\n  UEvs <- c_UEvs\n  Alphabet <- c_Alphabet\n  Roles <- c_Roles\n  MaxLen = %d\n  MaxTime = %d\nINVARIANTS NoViolation QuiescentOK %s\nCONSTRAINT Constr\nVIEW %s\nCHECK_DEADLOCK FALSE\n"
                 % (cfg["np"], cfg["nres"], cfg["poolcap"], cfg.get("bufcap", 2), cfg.get("oqcap", 1), cfg.get("pqcap", 1), cfg["maxlen"], cfg["maxtime"], export_inv if export else "",
                    "ViewS" if cfg.get("restart") else "View"))
     return mod
@@ -217,10 +222,11 @@ def conformance(pid, name, trace, v):
         f.write("c_Prio0 == <<%s>>\n" % ", ".join(map(str, cfg["prio"])))
         f.write("c_Auto == <<%s>>\n" % ", ".join(map(str, cfg["auto"])))
         f.write("c_Alphabet == {%s}\n" % ", ".join(tla_tuple(t) for t in cfg["alphabet"]))
+        f.write("c_Roles == <<%s>>\n" % ", ".join("{%s}" % ", ".join('"%s"' % o for o in r) for r in cfg.get("roles", [])))
         f.write("c_UEvs == <<%s>>\n====\n" % ", ".join("<<%d, %d, %s>>" % (u[0], u[1], tla_tuple(u[2])) for u in cfg.get("uevs", [])))
     with open(os.path.join(vlib.SPEC, mod + ".cfg"), "w") as f:
         f.write("SPECIFICATION CSpec\nCONSTANTS\n  NP = %d\n  Prio0 <- c_Prio0\n  Auto <- c_Auto\n  NRes = %d\n  PoolCap = %d\n"
-                "  BufCap = %d\n  OqCap = %d\n  PqCap = %d\n  UEvs <- c_UEvs\n  Alphabet <- c_Alphabet\n  MaxLen = %d\n  MaxTime = %d\nCHECK_DEADLOCK FALSE\n"
+                "  BufCap = %d\n  OqCap = %d\n  PqCap = %d\n  UEvs <- c_UEvs\n  Alphabet <- c_Alphabet\n  Roles <- c_Roles\n  MaxLen = %d\n  MaxTime = %d\nCHECK_DEADLOCK FALSE\n"
                 % (cfg["np"], cfg["nres"], cfg["poolcap"], cfg.get("bufcap", 2), cfg.get("oqcap", 1), cfg.get("pqcap", 1), cfg["maxlen"], cfg["maxtime"]))
     try:
         r = vlib.tlc(pid, mod, mod + ".cfg", workers=1, timeout=3000, env={"TRACE": trace}, tag="kconf_" + name, heap="12g",
@@ -250,7 +256,7 @@ def model_check(pid, v, tier, out):
     for name in names:
         r, cfg, progs = run_config(pid, name, v, simulate=SIMULATE.get(name))
         total = len(progs)
-        cap = 1500 if tier == "quick" else 20000
+        cap = cfg.get("replay_quick", 1500) if tier == "quick" else 20000
         if total > cap:
             step = total // cap + 1
             progs = progs[vlib.seed() % step::step]
